@@ -29,11 +29,15 @@ import ast, sys, os, argparse, traceback
 class Unsupported(Exception):
     pass
 
+# module constants the bridge theorems know by name (they are compared with the regenerated tables); every other module-level int
+# constant is substituted by its value, so that introducing or renaming a named constant leaves the translation unchanged
+NAMED_CONSTS = set()   # (every module-level int constant is substituted by its value: literal <-> named-constant rewrites leave the translation unchanged)
+
 FAILED = []   # functions that could not be translated (reason), filled by translate()
 
 # (function, ordinal of the loop inside it) -> Lean expression for the fuel (may mention the function's variables)
 FUEL = {
-    ('get_resolution', 1): '(MAX_RESOLUTION + 2).toNat',
+    ('get_resolution', 1): '(({MAX_RESOLUTION} : Int) + 2).toNat',
     ('compact', 1): '(Int.ofNat current_cells.length + 2).toNat',
     ('compact', 2): '(Int.ofNat current_cells.length + 2).toNat',
 }
@@ -68,6 +72,8 @@ class Fn:
     """translation state for one function"""
     def __init__(self, mod, name, consts, sigs):
         self.mod, self.name, self.consts, self.sigs = mod, name, consts, sigs
+        self.const_values = {}
+        self.helpers = {}      # simple private helpers of the module (inlined at their call sites)
         self.aux = []          # auxiliary loop defs (Lean text), emitted before the function
         self.nloops = 0
         self.ntmp = 0
@@ -97,7 +103,9 @@ def tr_expr(fn, e, env):
         if e.id in env:
             return [], lname(e.id), env[e.id]
         if e.id in fn.consts:
-            return [], e.id, fn.consts[e.id]
+            if e.id in NAMED_CONSTS:
+                return [], e.id, fn.consts[e.id]
+            return [], f'({fn.const_values[e.id]} : Int)', T_INT
         if e.id == 'origins':
             return [], 'Py.origins', T_LISTORIGIN
         raise Unsupported(f'name {e.id} (line {e.lineno})')
@@ -130,7 +138,8 @@ def tr_expr(fn, e, env):
             return binds, f'(Py.band {paren(l)} {paren(r)})', T_INT
         if isinstance(op, ast.BitOr):
             return binds, f'(Py.bor {paren(l)} {paren(r)})', T_INT
-        lit_nonzero = isinstance(e.right, ast.Constant) and isinstance(e.right.value, int) and e.right.value != 0
+        lit_nonzero = (isinstance(e.right, ast.Constant) and isinstance(e.right.value, int) and e.right.value != 0) or \
+                      (isinstance(e.right, ast.Name) and e.right.id not in env and e.right.id not in NAMED_CONSTS and fn.const_values.get(e.right.id, 0) != 0)
         if isinstance(op, ast.FloorDiv):
             if lit_nonzero:
                 return binds, f'(Int.fdiv {paren(l)} {paren(r)})', T_INT
@@ -188,9 +197,10 @@ def tr_expr(fn, e, env):
         if isinstance(e.slice, ast.Slice):
             bv, v, tv = tr_expr(fn, e.value, env)
             sl = e.slice
-            if tv != T_STR or sl.upper is not None or sl.step is not None or not (isinstance(sl.lower, ast.Constant) and isinstance(sl.lower.value, int) and sl.lower.value >= 0):
+            low = sl.lower.value if isinstance(sl.lower, ast.Constant) else (fn.const_values.get(sl.lower.id) if isinstance(sl.lower, ast.Name) and sl.lower.id not in env else None)
+            if tv != T_STR or sl.upper is not None or sl.step is not None or not (isinstance(low, int) and low >= 0):
                 raise Unsupported('slice other than <str>[<non-negative literal>:]')
-            return bv, f'(Py.strFrom {paren(v)} {sl.lower.value})', T_STR
+            return bv, f'(Py.strFrom {paren(v)} {low})', T_STR
         bv, v, tv = tr_expr(fn, e.value, env)
         bi, i, ti = tr_expr(fn, e.slice, env)
         if tv not in (T_LISTINT,) or ti != T_INT:
@@ -255,7 +265,7 @@ def tr_call(fn, e, env):
     types = [a[2] for a in args]
     if f == 'hex' and types == [T_INT]:
         return binds, f'(Py.hex {paren(texts[0])})', T_STR
-    if f == 'int' and types == [T_STR, T_INT] and isinstance(e.args[1], ast.Constant):
+    if f == 'int' and types == [T_STR, T_INT] and (isinstance(e.args[1], ast.Constant) or (isinstance(e.args[1], ast.Name) and e.args[1].id in fn.const_values and e.args[1].id not in env)):
         t = fn.tmp()
         return binds + [(t, f'Py.intOfStr {paren(texts[0])} {paren(texts[1])}')], t, T_INT
     if f in ('max', 'min') and len(args) == 2 and types == [T_INT, T_INT]:
@@ -288,6 +298,49 @@ def tr_call(fn, e, env):
                 raise Unsupported(f'missing argument {i} of {f}')
         t = fn.tmp()
         return binds + [(t, f'{f} ' + ' '.join(full))], t, rtype
+    if f in fn.helpers:
+        # a private helper of the same module whose body is straight-line (assignments, then `return <expr>`): substituted at the call site
+        h = fn.helpers[f]
+        body = [st for st in h.body if not (isinstance(st, ast.Expr) and isinstance(st.value, ast.Constant))]
+        ok = body and isinstance(body[-1], ast.Return) and body[-1].value is not None and \
+            all(isinstance(st, ast.Assign) and len(st.targets) == 1 and isinstance(st.targets[0], ast.Name) for st in body[:-1]) and \
+            not h.decorator_list and not h.args.defaults and not h.args.vararg and not h.args.kwarg and len(h.args.args) == len(args)
+        if not ok:
+            raise Unsupported(f'call of the helper {f}, which is not a straight-line function (line {e.lineno})')
+        sub = {}
+        for p_, (b_, t_, ty_) in zip(h.args.args, args):
+            sub[p_.arg] = (t_, ty_)
+        env2 = dict(env)
+        binds2 = list(binds)
+        # evaluate the helper's assignments in order, as pure substitutions (they must not raise: checked by requiring no binds)
+        class _Sub(ast.NodeTransformer):
+            def visit_Name(self, node):
+                return node
+        local_txt = {}
+        def tr_h(expr):
+            # translate with parameters/locals of the helper mapped to already translated text
+            names = {n.id for n in ast.walk(expr) if isinstance(n, ast.Name)}
+            envh = dict(env2)
+            for nme in names:
+                if nme in sub:
+                    envh['\0' + nme] = sub[nme][1]
+            class R(ast.NodeTransformer):
+                def visit_Name(self, node):
+                    if node.id in sub:
+                        return ast.copy_location(ast.Name(id='\0' + node.id, ctx=node.ctx), node)
+                    return node
+            e2 = R().visit(ast.parse(ast.unparse(expr), mode='eval').body)
+            b3, t3, ty3 = tr_expr(fn, e2, envh)
+            for nme in sub:
+                t3 = t3.replace(lname('\0' + nme), paren(sub[nme][0]))
+                b3 = [(bn, bt.replace(lname('\0' + nme), paren(sub[nme][0]))) for bn, bt in b3]
+            return b3, t3, ty3
+        for st in body[:-1]:
+            b3, t3, ty3 = tr_h(st.value)
+            binds2 += b3
+            sub[st.targets[0].id] = (t3, ty3)
+        b3, t3, ty3 = tr_h(body[-1].value)
+        return binds2 + b3, t3, ty3
     raise Unsupported(f'call of {f} (line {e.lineno})')
 
 def tr_cond(fn, e, env):
@@ -425,6 +478,35 @@ def terminates(stmts):
 def tuple_of(names):
     return '()' if not names else (lname(names[0]) if len(names) == 1 else '(' + ', '.join(lname(n) for n in names) + ')')
 
+def canon_if(fn, s, env):
+    def single_assign(body):
+        body = [x for x in body if not isinstance(x, ast.Pass)]
+        if len(body) == 1 and isinstance(body[0], ast.If):
+            inner = canon_if(fn, body[0], env)
+            if inner is not None:
+                return inner
+        if len(body) == 1 and isinstance(body[0], ast.Assign) and len(body[0].targets) == 1 and isinstance(body[0].targets[0], ast.Name):
+            return body[0]
+        return None
+    a, b = single_assign(s.body), single_assign(s.orelse)
+    if a is None or b is None or a.targets[0].id != b.targets[0].id:
+        return None
+    saved = fn.ntmp
+    try:
+        for v in (a.value, b.value):
+            binds, _, ty = tr_expr(fn, v, env)
+            if binds or ty not in (T_INT, T_BOOL, T_PROP):
+                return None
+        bc, _, _ = tr_cond(fn, s.test, env)
+        if bc or narrowing(s.test, env):
+            return None
+    except Unsupported:
+        return None
+    finally:
+        fn.ntmp = saved       # the trial translations must not consume temporaries
+    new = ast.Assign(targets=[ast.Name(id=a.targets[0].id, ctx=ast.Store())], value=ast.IfExp(test=s.test, body=a.value, orelse=b.value), lineno=s.lineno)
+    return ast.fix_missing_locations(ast.copy_location(new, s))
+
 class K:
     """continuations: what to do at the end of a block, on continue and on break (Lean text using current names)"""
     def __init__(self, end, cont=None, brk=None):
@@ -517,6 +599,11 @@ def tr_block(fn, stmts, env, k, ind):
             raise Unsupported('append of a non-int')
         return bind_all(b, f'let {lname(lst)} : List Int := {lname(lst)} ++ [{t}];' + nl + tr_block(fn, rest, env, k, ind))
     if isinstance(s, ast.If):
+        # canonical form: `if c: v = a  else: v = b` (one assignment to the same name on each side, nothing that can raise) is the
+        # conditional expression `v = a if c else b`, whichever way the source spells it
+        cs = canon_if(fn, s, env)
+        if cs is not None:
+            return tr_block(fn, [cs] + rest, env, k, ind)
         if not has_jump(s.body) and not has_jump(s.orelse) and not (terminates(s.body) or terminates(s.orelse)):
             # join point over the variables assigned in the branches that are (or become) defined on both sides
             av = [v for v in assigned([s]) if v in env or (v in assigned(s.body) and v in assigned(s.orelse))]
@@ -551,6 +638,10 @@ def tr_block(fn, stmts, env, k, ind):
         fuel = FUEL.get((fn.name, ordinal))
         if fuel is None:
             raise Unsupported(f'no fuel bound configured for loop {ordinal} of {fn.name}')
+        try:
+            fuel = fuel.format(**fn.const_values)      # `{NAME}` in a fuel expression = the value of that module constant
+        except KeyError as e_:
+            raise Unsupported(f'fuel bound of loop {ordinal} of {fn.name} mentions the missing constant {e_}')
         state = [v for v in assigned(s.body) if v in env]
         free = [v for v in env if v not in state and any(isinstance(n, ast.Name) and n.id == v for x in [s] for n in ast.walk(x))]
         params = ' '.join(f'({lname(v)} : {env[v]})' for v in free + state)
@@ -673,6 +764,8 @@ def translate(repo):
                     env[p.arg] = ty
                 rtype = ann_type(f.returns)
                 fn = Fn(ns, name, {k: T_INT for k in consts}, dict(sigs))
+                fn.const_values = dict(consts)
+                fn.helpers = {k: v for k, v in funcs.items() if k not in names and k != name}
                 fn.ret_type = rtype
                 fn.sigs[name] = (ptypes, rtype)      # (recursion is not expected, but the signature is known)
                 body = tr_block(fn, f.body, env, K(lambda e2: (_ for _ in ()).throw(Unsupported('control reaches the end without return'))), 1)
